@@ -219,9 +219,10 @@ class Parser:
             self._comments[:] = []  # clear any comments from a previous parse
             ip = self.lalr.parse_interactive(text)
             for t in ip.iter_parse():
-                # the previous keyword (if any)
+                # the previous keyword (if any), compared case-insensitively like every other keyword
                 value_stack = ip.parser_state.value_stack
                 previous = value_stack[-1] if value_stack else None
+                previous = previous.upper() if isinstance(previous, str) else None
                 if t.type == "UNQUOTED_STRING":
                     # Unquoted strings after SYMBOL can only be values, not attributes
                     if (
